@@ -379,6 +379,10 @@ def _split_tuple_assign(tree):
                         and all(isinstance(t, (ast.Name, ast.Attribute)) for t in st.targets[0].elts) \
                         and not any(isinstance(v, ast.Starred) for v in st.value.elts):
                     ts, vs = st.targets[0].elts, st.value.elts
+                    # x, y = x, E: the identity element binds nothing
+                    keep = [(t, v) for t, v in zip(ts, vs) if not (isinstance(t, ast.Name) and isinstance(v, ast.Name) and t.id == v.id)]
+                    if keep and len(keep) < len(ts):
+                        ts, vs = [t for t, _v in keep], [v for _t, v in keep]
                     ttxt = [ast.unparse(t) for t in ts]
                     ok = True
                     for i in range(len(ts)):
@@ -710,6 +714,24 @@ def _copy_prop(fn):
                             and isinstance(st.value, ast.Name)):
                         continue
                     x, y = st.targets[0].id, st.value.id
+                    if x != y and '__' in y and y not in declared and x not in declared and stores.get(y, 0) == 1 and stores.get(x, 0) != 1:
+                        # x = y where y (made by the inliner) was bound a few statements earlier in the same list and x is not
+                        # touched in between: y IS x from its binding on (the helper's result handed to a caller's variable
+                        # that is re-bound elsewhere, so plain copy propagation does not apply)
+                        k_ = next(i for i, s2 in enumerate(body) if s2 is st)
+                        j_ = next((i for i in range(k_ - 1, -1, -1) if isinstance(body[i], ast.Assign) and len(body[i].targets) == 1
+                                   and isinstance(body[i].targets[0], ast.Name) and body[i].targets[0].id == y), None)
+                        if j_ is not None:
+                            between = body[j_:k_]
+                            touched_x = any(isinstance(n_, ast.Name) and n_.id == x for s2 in between for n_ in ast.walk(s2))
+                            y_loads_here = sum(_count_loads_in(s2, y) for s2 in body[j_ + 1:k_ + 1])
+                            if not touched_x and y_loads_here == loads.get(y, 0):
+                                ren = _Ren({y: x})
+                                for i in range(j_, k_):
+                                    body[i] = ren.visit(body[i])
+                                body.remove(st)
+                                done = True
+                                break
                     if x == y or x in declared or y in declared or stores.get(x, 0) != 1 or stores.get(y, 0) != 1 or y == 'self':
                         continue
                     if '__' not in x and '__' not in y:
@@ -1291,6 +1313,32 @@ def _guards_to_ifexp(fn):
     return fn
 
 
+def _guards_to_nesting(fn):
+    """a helper that returns nothing: `if g: return` + REST  ->  `if not g: REST`, applied from the outside in, so that no
+    return is left and the body can stand where the call stood"""
+    if any(isinstance(n, ast.Return) and n.value is not None and not (isinstance(n.value, ast.Constant) and n.value.value is None)
+           for n in _own_walk(fn)):
+        return fn
+
+    def conv(body):
+        out = []
+        for k, st in enumerate(body):
+            if isinstance(st, ast.If) and not st.orelse and st.body and isinstance(st.body[-1], ast.Return) and len(st.body) == 1:
+                rest = conv(body[k + 1:])
+                if rest:
+                    out.append(ast.copy_location(ast.If(test=_not(st.test), body=rest, orelse=[]), st))
+                return out
+            if isinstance(st, ast.Return) and k == len(body) - 1:
+                return out
+            out.append(st)
+        return out
+    new = conv(list(fn.body))
+    if any(isinstance(n, ast.Return) for s_ in new for n in ast.walk(s_)):
+        return fn
+    fn.body = new or [ast.copy_location(ast.Pass(), fn)]
+    return fn
+
+
 def _one_shot(fn):
     """A helper with several returns, none of them inside a loop, rewritten to a single exit:
 
@@ -1681,6 +1729,8 @@ def _inline_new_helpers(tree, relpath):
                         h_.body = h_.body[1:]
                     h_ = _guards_to_ifexp(h_)
                     if not _single_exit(h_):
+                        h_ = _guards_to_nesting(h_)
+                    if not _single_exit(h_):
                         h_ = _one_shot(h_) or h_
                     if _single_exit(h_):
                         h_._verif_static = 'staticmethod' in decos
@@ -1703,6 +1753,7 @@ def _inline_new_helpers(tree, relpath):
         return
     counter = [0]
     tail_ok = [False]
+    dead_after = [None]       # names of the enclosing function that no later top-level statement reads (None: unknown here)
 
     def tail_inline(st, cls):
         """`return h(args)` / `return await h(args)` with h a helper of several exits: h's body stands in for the statement,
@@ -1738,6 +1789,11 @@ def _inline_new_helpers(tree, relpath):
             if _simple_arg(v_) and p not in stored:
                 sub[p] = v_
                 ren.pop(p, None)
+            elif p in stored and isinstance(v_, ast.Name) and dead_after[0] is not None and v_.id in dead_after[0] \
+                    and v_.id not in (stored - {p}) and v_.id not in [q_ for q_, _w in b if q_ != p]:
+                # the helper re-binds its parameter and the caller never reads the argument again: the caller's own
+                # local carries on (`touched = touched.intersection(...)` inside the helper is the caller's statement)
+                ren[p] = v_.id
             else:
                 pre.append(ast.copy_location(ast.Assign(targets=[ast.Name(id=ren[p], ctx=ast.Store())], value=v_), st))
         tr = _SubstMany(ren, sub)
@@ -1858,6 +1914,13 @@ def _inline_new_helpers(tree, relpath):
             if _simple_arg(v) and p not in stored:
                 sub[p] = v
                 ren.pop(p, None)
+            elif p in stored and isinstance(v, ast.Name) and v.id not in (stored - {p}) and v.id not in [q_ for q_, _w in b if q_ != p] \
+                    and ((dead_after[0] is not None and v.id in dead_after[0]) or
+                         (isinstance(st, ast.Assign) and any(isinstance(x, ast.Name) and x.id == v.id for t_ in st.targets for x in ast.walk(t_)))):
+                # (... or the call statement itself re-binds the argument: `raw, d = self._next(raw, cursor)`)
+                # the helper re-binds its parameter and the caller never reads the argument again: the caller's own
+                # local carries on (`touched = touched.intersection(...)` inside the helper is the caller's statement)
+                ren[p] = v.id
             else:
                 pre.append(ast.copy_location(ast.Assign(targets=[ast.Name(id=ren[p], ctx=ast.Store())], value=v), st))
         tr = _SubstMany(ren, sub)
@@ -2012,8 +2075,14 @@ def _inline_new_helpers(tree, relpath):
             if not (isinstance(body, list) and body and isinstance(body[0], ast.stmt)):
                 continue
             new = []
-            for st in body:
+            for i_st, st in enumerate(body):
                 sub = None
+                if isinstance(node, (ast.FunctionDef, ast.AsyncFunctionDef)) and fld == 'body':
+                    later = {x.id for s2 in body[i_st + 1:] for x in ast.walk(s2) if isinstance(x, ast.Name) and isinstance(x.ctx, ast.Load)}
+                    every = {x.id for x in ast.walk(node) if isinstance(x, ast.Name)} | {a_.arg for a_ in node.args.args}
+                    dead_after[0] = every - later
+                else:
+                    dead_after[0] = None
                 if not isinstance(node, (ast.ClassDef, ast.Module)):
                     sub = tail_inline(st, cls)
                     if sub is None:
